@@ -716,6 +716,47 @@ func c03(run *core.Run, replay string) {
 				run.Violate("C03 cli-crash mutation="+c.Mut.Kind, fmt.Sprintf("[%s %v] kanzi -d exits %d with a Go crash: %s", c.R.Name, c.Mut, code, core.Trunc(txt, 1200)), c)
 			}
 		})
+		// a directory of archives, some of them hostile, decompressed with several jobs: the first failing file makes the tool
+		// stop early while the workers of the other files are still running
+		nrep := run.Pick(40, 200)
+		core.ParallelDo(4, 4, func(d int) {
+			work, err := os.MkdirTemp(cliTmpRoot, "c03dir-")
+			if err != nil {
+				return
+			}
+			defer os.RemoveAll(work)
+			os.MkdirAll(filepath.Join(work, "in"), 0o755)
+			os.MkdirAll(filepath.Join(work, "back"), 0o755)
+			for i := 0; i < 24; i++ {
+				data := gen.Make([]string{"text", "html", "random"}[i%3], 20000+3000*i, run.Seed+int64(d*100+i))
+				st, _, err := kz.Compress(data, kz.Cfg{Transform: "LZ", Entropy: "HUFFMAN", BlockSize: 4096, Jobs: 1, Checksum: 32}, nil)
+				if err != nil {
+					continue
+				}
+				switch {
+				case i%5 == d%5:
+					st = []byte("garbage, not a kanzi stream")
+				case i%7 == 3:
+					st = st[:len(st)/3]
+				case i%11 == 5:
+					st[len(st)/2] ^= 0x40
+				}
+				os.WriteFile(filepath.Join(work, "in", fmt.Sprintf("f%02d.knz", i)), st, 0o644)
+			}
+			for k := 0; k < nrep/4; k++ {
+				code, so, se := runToolPiped(work, nil, 0, "-d", "-i", "in", "-o", "back", "-f", "-v", "0", "-j", fmt.Sprint(4+4*(k%3)))
+				cmu.Lock()
+				run.Eval(1)
+				run.Count("cli_hostile_directories_decompressed", 1)
+				txt := se + string(so)
+				if strings.Contains(txt, "goroutine ") || strings.Contains(txt, "panic: ") || strings.Contains(txt, "fatal error: ") {
+					run.Violate("C03 cli-crash mutation=directory-of-archives", fmt.Sprintf("kanzi -d on a directory of 24 archives (some garbage / truncated / damaged) with several jobs exits %d with a Go crash: %s", code, core.Trunc(txt, 900)), map[string]any{"dir": d, "rep": k})
+					cmu.Unlock()
+					return
+				}
+				cmu.Unlock()
+			}
+		})
 		if cliTmpRoot != "" {
 			os.RemoveAll(cliTmpRoot)
 		}
